@@ -108,17 +108,49 @@ fn lengths(a: &Args) -> Vec<usize> {
     v
 }
 
-/// lengths around the 64/256/512/2048-bit block boundaries: every pattern is generated for them
-fn key_length(len: usize) -> bool {
-    if len <= 2 {
-        return true;
+/// how many of the patterns a length gets in the quick tier (all of them in the thorough tier for the
+/// block-boundary lengths).  Rotation over consecutive lengths makes every pattern meet every block class.
+fn patterns_for(a: &Args, li: usize, len: usize) -> Vec<&'static str> {
+    let all = PATTERNS.to_vec();
+    let rot = |k: usize| -> Vec<&'static str> { (0..k).map(|j| PATTERNS[(li * k + j + len / 64) % PATTERNS.len()]).collect() };
+    let half = |h: usize| -> Vec<&'static str> { PATTERNS.iter().enumerate().filter(|(i, _)| i % 2 == h).map(|(_, p)| *p).collect() };
+    if a.get("pat").is_some() || len <= 2 {
+        return all;
     }
-    for b in [64usize, 128, 256, 512, 1024, 2048, 4096] {
-        if len + 1 >= b && len <= b + 1 {
-            return true;
+    let exact = [64usize, 128, 256, 512, 1024].contains(&len);
+    let near = [64usize, 128, 256, 512, 1024].iter().any(|&b| len + 1 == b || len == b + 1);
+    if a.thorough() {
+        if exact || near || [2048usize, 4096, 65536].contains(&len) {
+            return all;
         }
+        if len > 6000 {
+            return vec!["p50", "one1", "run64", "one0"];
+        }
+        if len > 1100 {
+            return half(len % 2);
+        }
+        return rot(3);
     }
-    false
+    if exact {
+        return all;
+    }
+    if near {
+        return half(len % 2);
+    }
+    if len == 2048 || len == 4096 {
+        return half((len / 2048) % 2);
+    }
+    if len > 1100 {
+        return rot(1);
+    }
+    if len % 64 == 0 {
+        return rot(2);
+    }
+    rot(1)
+}
+
+fn key_length(len: usize) -> bool {
+    len <= 2 || [64usize, 128, 256, 512, 1024, 2048, 4096].iter().any(|&b| len + 1 >= b && len <= b + 1)
 }
 
 fn inputs(a: &Args) -> Vec<Input> {
@@ -126,23 +158,13 @@ fn inputs(a: &Args) -> Vec<Input> {
     let only_pat = a.get("pat");
     let mut out = vec![];
     let mut seen: HashSet<(usize, Vec<u64>)> = HashSet::new();
-    let per_len = a.get_u64("patterns", if a.thorough() { 4 } else { 2 }) as usize;
     for (li, &len) in lengths(a).iter().enumerate() {
         if let Some(l) = only_len {
             if l != len {
                 continue;
             }
         }
-        let big = len > 6000;
-        let pats: Vec<&str> = if only_pat.is_some() || key_length(len) || (big && len % 2 == 0) {
-            PATTERNS.to_vec()
-        } else if big {
-            vec!["p50", "one1", "run64"]
-        } else {
-            // a rotating subset: over consecutive lengths every pattern is used
-            (0..per_len).map(|j| PATTERNS[(li * per_len + j) % PATTERNS.len()]).collect()
-        };
-        for p in pats {
+        for p in patterns_for(a, li, len) {
             if let Some(op) = only_pat {
                 if op != p {
                     continue;
@@ -220,10 +242,40 @@ struct Run<'a> {
     ints: &'a mut u64,
     at: Cell<usize>,
     answered: bool,
+    /// thorough tier: every entry point on every variant
+    full: bool,
 }
 
 struct Stop;
 type R = Result<(), Stop>;
+
+/// a bulk call that answered Ok with a wrong number of results (logged as -2, never a defined answer)
+const MALFORMED: usize = usize::MAX - 1;
+/// answers are positions / counts <= 65538; anything >= 10^9 (a wrapped subtraction ...) is logged as
+/// 10^9 so that the trace stays within TLC's 32-bit integers
+fn clip(x: usize) -> i64 {
+    if x >= 1_000_000_000 {
+        1_000_000_000
+    } else {
+        x as i64
+    }
+}
+/// answers of rank/select calls (may carry the MALFORMED marker of `one`)
+fn clip_m(x: usize) -> i64 {
+    if x == MALFORMED {
+        -2
+    } else {
+        clip(x)
+    }
+}
+/// the single result of a bulk call asked one question
+fn one(v: Vec<usize>) -> usize {
+    if v.len() == 1 {
+        v[0]
+    } else {
+        MALFORMED
+    }
+}
 
 impl<'a> Run<'a> {
     fn ev(&mut self, e: Value, answers: usize) {
@@ -248,7 +300,17 @@ impl<'a> Run<'a> {
     }
     fn panic(&mut self, api: &str, msg: String) -> Stop {
         let at = self.at.get();
-        self.ev(json!({"op":"panic","in":api,"at":at,"msg":msg}), 0);
+        // coarse class of the message (TLC does not take strings apart)
+        let kind = if msg.starts_with("index out of bounds") || msg.contains("out of range for slice") {
+            "oob"
+        } else if msg.starts_with("assertion") {
+            "assert"
+        } else if msg.contains("overflow") {
+            "overflow"
+        } else {
+            "other"
+        };
+        self.ev(json!({"op":"panic","in":api,"at":at,"kind":kind,"msg":msg}), 0);
         self.st.panics += 1;
         Stop
     }
@@ -277,6 +339,7 @@ impl<'a> Run<'a> {
         match r {
             Ok(r) => {
                 let n = r.len();
+                let r: Vec<i64> = r.into_iter().map(clip_m).collect();
                 let at = if all { vec![] } else { pos };
                 self.ev(json!({"op":"rank","which":which,"api":api,"all":all,"at":at,"r":r}), n);
                 Ok(())
@@ -292,7 +355,7 @@ impl<'a> Run<'a> {
             ks.iter()
                 .map(|&k| {
                     at.set(k);
-                    f(k).map(|x| x as i64).unwrap_or(-1)
+                    f(k).map(clip_m).unwrap_or(-1)
                 })
                 .collect::<Vec<i64>>()
         });
@@ -315,7 +378,7 @@ impl<'a> Run<'a> {
         match guard(|| f(&ks)) {
             Ok(r) => {
                 let ok = r.is_some();
-                let r = r.unwrap_or_default();
+                let r: Vec<i64> = r.unwrap_or_default().into_iter().map(clip).collect();
                 let n = ks.len();
                 self.ev(json!({"op":"select_batch","which":which,"api":api,"at":ks,"ok":ok,"r":r}), n);
                 Ok(())
@@ -359,7 +422,7 @@ impl<'a> Run<'a> {
         self.at.set(0);
         match guard(f) {
             Ok((len, ones, zeros)) => {
-                self.ev(json!({"op":"counts","len":len,"ones":ones,"zeros":zeros}), 3);
+                self.ev(json!({"op":"counts","len":clip(len),"ones":clip(ones),"zeros":clip(zeros)}), 3);
                 Ok(())
             }
             Err(m) => Err(self.panic("counts", m)),
@@ -393,7 +456,10 @@ impl<'a> Run<'a> {
                     .collect::<Vec<usize>>()
             });
             match r {
-                Ok(r) => self.ev(json!({"op":"wrank","api":api,"w":w,"r":r}), 65),
+                Ok(r) => {
+                    let r: Vec<i64> = r.into_iter().map(clip).collect();
+                    self.ev(json!({"op":"wrank","api":api,"w":w,"r":r}), 65)
+                }
                 Err(m) => return Err(self.panic(api, m)),
             }
         }
@@ -411,7 +477,7 @@ impl<'a> Run<'a> {
                 (0..=64usize)
                     .map(|k| {
                         at.set(k);
-                        f(word, k).map(|x| x as i64).unwrap_or(-1)
+                        f(word, k).map(clip_m).unwrap_or(-1)
                     })
                     .collect::<Vec<i64>>()
             });
@@ -427,6 +493,7 @@ impl<'a> Run<'a> {
         match guard(|| f(&words)) {
             Ok(r) => {
                 let n = r.len();
+                let r: Vec<i64> = r.into_iter().map(clip).collect();
                 self.ev(json!({"op":"popcounts","api":api,"r":r}), n);
                 Ok(())
             }
@@ -568,8 +635,11 @@ fn run_subject(r: &mut Run, fam: &str, variant: &str, route: &str, seed: u64) ->
             };
             let s = built(r, s)?;
             ops_basic(r, &s)?;
-            ops_perf(r, &s)?;
-            il_extra(r, &s)
+            if matches!(variant, "default" | "nosel") && route == "push" || r.full {
+                ops_perf(r, &s)?;
+                il_extra(r, &s)?;
+            }
+            Ok(())
         }
         "se256" => {
             let (s0, s1) = (variant.as_bytes()[3] == b'1', variant.as_bytes()[4] == b'1');
@@ -631,11 +701,17 @@ fn run_subject(r: &mut Run, fam: &str, variant: &str, route: &str, seed: u64) ->
             if variant.starts_with("dim0") {
                 let s = built(r, RankSelectMixedIL256::new(make_bv(inp, route), w))?;
                 ops_basic(r, &s.dim0())?;
+                if !r.full {
+                    return Ok(());
+                }
                 r.rank("rank1", "rank1_dim", |p| s.rank1_dim(0, p))?;
                 r.select("select1", "select1_dim", |k| s.select1_dim(0, k).ok())
             } else {
                 let s = built(r, RankSelectMixedIL256::new(w, make_bv(inp, route)))?;
                 ops_basic(r, &s.dim1())?;
+                if !r.full {
+                    return Ok(());
+                }
                 r.rank("rank0", "rank0_dim", |p| s.rank0_dim(1, p))?;
                 r.select("select1", "select1_dim", |k| s.select1_dim(1, k).ok())
             }
@@ -694,8 +770,8 @@ fn run_subject(r: &mut Run, fam: &str, variant: &str, route: &str, seed: u64) ->
         "simd" => {
             let w = &inp.words;
             r.rank_bulk("rank1", "bulk_rank1_simd", |ps| bulk_rank1_simd(w, ps))?;
-            r.rank("rank1", "bulk_rank1_simd[1]", |p| bulk_rank1_simd(w, &[p])[0])?;
-            r.select("select1", "bulk_select1_simd[1]", |k| bulk_select1_simd(w, &[k]).ok().map(|x| x[0]))?;
+            r.rank("rank1", "bulk_rank1_simd[1]", |p| one(bulk_rank1_simd(w, &[p])))?;
+            r.select("select1", "bulk_select1_simd[1]", |k| bulk_select1_simd(w, &[k]).ok().map(one))?;
             r.popcounts("bulk_popcount_simd", |ws| bulk_popcount_simd(ws))?;
             // the subject has no count of its own: the batch is cut where the single calls started to refuse
             let c = match guard(|| (0..=n).find(|&k| bulk_select1_simd(w, &[k]).is_err()).unwrap_or(n + 1)) {
@@ -710,9 +786,9 @@ fn run_subject(r: &mut Run, fam: &str, variant: &str, route: &str, seed: u64) ->
             let disp = b2a::Bmi2Dispatcher::new();
             r.rank_bulk("rank1", "Bmi2BlockOps::rank_bulk", |ps| b2a::Bmi2BlockOps::rank_bulk(w, ps))?;
             r.rank_bulk("rank1", "Bmi2Accelerator::rank_bulk", |ps| acc.rank_bulk(w, ps))?;
-            r.select("select1", "Bmi2BlockOps::select_bulk[1]", |k| b2a::Bmi2BlockOps::select_bulk(w, &[k]).ok().map(|x| x[0]))?;
+            r.select("select1", "Bmi2BlockOps::select_bulk[1]", |k| b2a::Bmi2BlockOps::select_bulk(w, &[k]).ok().map(one))?;
             r.select("select1", "Bmi2SelectOps::select1_bulk[1]", |k| {
-                b2a::Bmi2SelectOps::select1_bulk(w, &[k as u32]).ok().map(|x| x[0] as usize)
+                b2a::Bmi2SelectOps::select1_bulk(w, &[k as u32]).ok().map(|x| one(x.into_iter().map(|y| y as usize).collect()))
             })?;
             let c = match guard(|| (0..=n).find(|&k| b2a::Bmi2BlockOps::select_bulk(w, &[k]).is_err()).unwrap_or(n + 1)) {
                 Ok(c) => c,
@@ -736,7 +812,7 @@ fn run_subject(r: &mut Run, fam: &str, variant: &str, route: &str, seed: u64) ->
                 b2a::Bmi2AdvancedPatterns::pdep_ctz_select(x, k as u32).map(|p| p as usize)
             })?;
             r.wselect("select1", "Bmi2AdvancedPatterns::pdep_ctz_select_bulk[1]", |x, k| {
-                b2a::Bmi2AdvancedPatterns::pdep_ctz_select_bulk(x, &[k as u32]).ok().map(|p| p[0] as usize)
+                b2a::Bmi2AdvancedPatterns::pdep_ctz_select_bulk(x, &[k as u32]).ok().map(|p| one(p.into_iter().map(|y| y as usize).collect()))
             })?;
             r.wselect("select1", "Bmi2Accelerator::select1", |x, k| acc.select1(x, k as u32).map(|p| p as usize))?;
             r.wselect("select1", "Bmi2Accelerator::select1_enhanced", |x, k| acc.select1_enhanced(x, k as u32).map(|p| p as usize))?;
@@ -748,7 +824,7 @@ fn run_subject(r: &mut Run, fam: &str, variant: &str, route: &str, seed: u64) ->
             // these select the rank-th one, rank counted from 1 (documented by the crate's tests)
             r.wselect("select1", "Bmi2BitOps::select1_ultra_fast(1-based)", |x, k| b2c::Bmi2BitOps::select1_ultra_fast(x, k + 1))?;
             r.wselect("select1", "Bmi2BitOps::select1_fallback(1-based)", |x, k| b2c::Bmi2BitOps::select1_fallback(x, k + 1))?;
-            r.select("select1", "Bmi2BlockOps::bulk_select1[1](1-based)", |k| b2c::Bmi2BlockOps::bulk_select1(w, &[k + 1]).ok().map(|x| x[0]))?;
+            r.select("select1", "Bmi2BlockOps::bulk_select1[1](1-based)", |k| b2c::Bmi2BlockOps::bulk_select1(w, &[k + 1]).ok().map(one))?;
             r.rank_bulk("rank1", "Bmi2BlockOps::bulk_rank1", |ps| b2c::Bmi2BlockOps::bulk_rank1(w, ps))
         }
         _ => Ok(()),
@@ -779,7 +855,9 @@ fn drive(a: &Args) {
             }
             // the word-level families and alternative routes are run on every 2nd..3rd vector only (quick tier)
             if !a.thorough() && a.get("len").is_none() && !key_length(inp.len) {
-                let light = route != "push" || matches!(variant.as_str(), "sel00" | "sel10" | "sel01" | "alias32" | "alias64" | "opt_default" | "from_bit_vector");
+                let light = route != "push"
+                    || matches!(variant.as_str(), "sel00" | "sel10" | "sel01" | "alias32" | "alias64" | "opt_default" | "from_bit_vector" | "nosel_space" | "seq_noadapt")
+                    || fam == "adaptive_md";
                 if light && vi % 3 != 0 {
                     continue;
                 }
@@ -801,7 +879,7 @@ fn drive(a: &Args) {
             st.runs += 1;
             st.events += 1;
             ints_in_file += (inp.len as u64) / 16 + 16;
-            let mut r = Run { tr: &mut tr, inp, st, ints: &mut ints_in_file, at: Cell::new(0), answered: false };
+            let mut r = Run { tr: &mut tr, inp, st, ints: &mut ints_in_file, at: Cell::new(0), answered: false, full: a.thorough() };
             let _ = run_subject(&mut r, &fam, &variant, &route, a.seed);
             if r.answered {
                 st.nontrivial_runs += 1;
